@@ -204,12 +204,14 @@ def run_case_c11(ops, edit_ops, rng, stats, m, light=False):
         top_t = E.paths[0]
         keep[top_t] = HRef.from_parent_and_item(None, nl.top_instance)
         # -- 2. is_valid / is_unique / name of every reference
+        names_before = {}
         order = sorted(keep)
         ans = m.ask([q for t in order for q in ('valid ' + hw.tok(t), 'unique ' + hw.tok(t), 'name ' + hw.tok(t))])
         for i, t in enumerate(order):
             h = keep[t]
             iv, iu, inm = ('1' if h.is_valid else '0'), ('1' if h.is_unique else '0'), hw.impl_name(h)
             mv, mu, mnm = ans[3 * i:3 * i + 3]
+            names_before[t] = inm
             if (iv, iu, inm) != (mv, mu, mnm):
                 P.add('corr', 'corr|C11|attr', href=t, impl=[iv, iu, inm], model=[mv, mu, mnm])
             if E.rooted:
@@ -371,13 +373,40 @@ def run_case_c11(ops, edit_ops, rng, stats, m, light=False):
                         if badrefs:
                             P.add('oracle', 'C11|stale-root|%s-returns-invalid-reference' % qname, href=t, edits=[' '.join(o) for o in edit_ops])
                             break
+            # names after the edits (renames among them): the references KEPT from before the edits - their names
+            # were read then - and, below, freshly queried ones must report the name the edited netlist gives them
+            # (the model's href_name of C11_name_holds on the edited heap; the oracle's name when rooted)
+            still = [t for t in order if keep[t].is_valid]
+            ans = m.ask(['name ' + hw.tok(t) for t in still])
+            for t, mnm in zip(still, ans):
+                inm = hw.impl_name(keep[t])
+                if inm != mnm:
+                    P.add('corr', 'corr|C11|name-after-edit|kept-reference', href=t, impl=inm, model=mnm,
+                          edits=[' '.join(o) for o in edit_ops])
+                if E2 is not None and E2.rooted and t in E2.name and inm != 's:' + hw.tok_of_s(E2.name[t]):
+                    P.add('oracle', 'C11|name-after-edit|kept-reference-reports-another-name', href=t, impl=inm,
+                          expected=E2.name[t], edits=[' '.join(o) for o in edit_ops])
+                stats['after-edit:name-kept'] += 1
+                if inm != names_before.get(t):
+                    stats['after-edit:name-kept-changed'] += 1
             D2 = hier_oracles.Design(w)
             if E2 is not None:
                 ans = m.ask(['enum %s %d 1' % (k, n) for k in KINDS])
                 for k, a in zip(KINDS, ans):
-                    impl, _ = hw.impl_enum(w, k, nl, True)
+                    impl, fresh = hw.impl_enum(w, k, nl, True)
                     cmp3(P, 'get_h%s(netlist, recursive=1) after edits' % k, 'C11|enum-after-edit|%s' % k, impl,
                          hw.parse_hrefs(a), E2.expected_enum(k, True) if E2.rooted else None)
+                    fresh = sample(rng, fresh, 12 if light else 40)
+                    ftup = [hw.tup(w, h) for h in fresh]
+                    for h, t, mnm in zip(fresh, ftup, m.ask(['name ' + hw.tok(t) for t in ftup])):
+                        inm = hw.impl_name(h)
+                        if inm != mnm:
+                            P.add('corr', 'corr|C11|name-after-edit|fresh-reference', href=t, impl=inm, model=mnm,
+                                  edits=[' '.join(o) for o in edit_ops])
+                        if E2.rooted and t in E2.name and inm != 's:' + hw.tok_of_s(E2.name[t]):
+                            P.add('oracle', 'C11|name-after-edit|fresh-reference-reports-another-name', href=t, impl=inm,
+                                  expected=E2.name[t], edits=[' '.join(o) for o in edit_ops])
+                        stats['after-edit:name-fresh'] += 1
                 # ... and the occurrences of single elements are asked again (the same questions were asked before
                 # the edits: whatever a query remembers between calls must follow the edits)
                 items2 = []
